@@ -23,6 +23,9 @@ def payloads(tier):
     out = []
 
     def add(kind, pre, body, ok, tags, fault=None, run=True):
+        # the faulty line is the one that READS v (a use form may start with a helper definition)
+        if isinstance(fault, int) and fault + 1 < len(body) and "v" not in body[fault].replace("def w", "") and body[fault].strip().startswith("def w"):
+            fault += 1
         out.append({"kind": kind, "prelude": pre, "body": body, "expect": "ok" if ok else "err", "tags": tags + (["run"] if run and ok else []), "fault": fault})
 
     use_forms = {"print": "print(v)", "init": "def u: Int := v", "arg": "def u: Int := idi(v)", "operand": "def u: Int := v + 1", "reassign-rhs": "def w: Int := 0\nw := v"}
@@ -65,7 +68,7 @@ def payloads(tier):
         add("other-function-local", ["def idi(x: Int) -> Int => x", "def other() =>", "    def v: Int := 1", '    print("o")'], u, False, t, 0)
         add("nested-if-then-only", pre, ["def c := True", "if c then", "    if c then", "        def v: Int := 1"] + u, False, t, 4)
         add("shadow-wrong-type", pre, ["def v: Int := 1", 'def v: Str := "s"', "def u2: Int := v"], False, t, 2)
-        add("comprehension-variable-outside", pre, ["def l := [cv for cv in 0 .. 3]", "def u3: Int := cv"], False, t, 1)
+        add("comprehension-variable-outside", pre, ["def l := [cv | cv in 0 .. 3]", "def u3: Int := cv"], False, t, 1)
         # unspecified: defined in both branches
     # fields in a constructor
     for when in ("before", "after", "then-only", "nullable-before"):
